@@ -354,39 +354,34 @@ impl<R: Read, TSpec> TagIterator<R, TSpec>
         Ok((tag_id, spec_tag_type, size, header_len))
     }
 
-    #[inline(always)]
-    fn read_valid_tag_header(&mut self) -> Result<(u64, Option<TagDataType>, EBMLSize), TagIteratorError> {
-        let (tag_id, spec_tag_type, size, header_len) = self.peek_valid_tag_header()?;
-            
-        self.internal_buffer_position += header_len;
-        Ok((tag_id, spec_tag_type, size))
-    }
-
-    fn read_tag_data(&mut self, size: usize) -> Result<Option<&[u8]>, TagIteratorError> {
-        self.ensure_capacity(size);
-        if !self.ensure_data_read(size)? {
+    fn read_tag_data(&mut self, header_len: usize, size: usize) -> Result<Option<&[u8]>, TagIteratorError> {
+        // The header is only consumed together with the data, so that the tag can be read again if the source has more data later on
+        self.ensure_capacity(header_len + size);
+        if !self.ensure_data_read(header_len + size)? {
             return Ok(None);
         }
 
-        self.internal_buffer_position += size;
+        self.internal_buffer_position += header_len + size;
         Ok(Some(&self.buffer[(self.internal_buffer_position-size)..self.internal_buffer_position]))
     }
 
     fn read_tag(&mut self) -> Result<ProcessingTag<TSpec>, TagIteratorError> {
         let tag_start = self.current_offset();
 
-        let (tag_id, spec_tag_type, size) = self.read_valid_tag_header()?;
+        let (tag_id, spec_tag_type, size, header_len) = self.peek_valid_tag_header()?;
 
-        let data_start = self.current_offset();
+        let data_start = tag_start + header_len;
         let raw_data = if matches!(spec_tag_type, Some(TagDataType::Master)) {
+            self.internal_buffer_position += header_len;
             &[]
         } else if let Known(size) = size {
-            if let Some(data) = self.read_tag_data(size)? {
+            if let Some(data) = self.read_tag_data(header_len, size)? {
                 data
             } else {
-                return Err(TagIteratorError::UnexpectedEOF { tag_start, tag_id: Some(tag_id), tag_size: Some(size), partial_data: Some(self.buffer[self.internal_buffer_position..self.buffered_byte_length].to_vec()) });
+                return Err(TagIteratorError::UnexpectedEOF { tag_start, tag_id: Some(tag_id), tag_size: Some(size), partial_data: Some(self.buffer[(self.internal_buffer_position + header_len)..self.buffered_byte_length].to_vec()) });
             }
         } else {
+            self.internal_buffer_position += header_len;
             return Err(TagIteratorError::CorruptedFileData(CorruptedFileError::InvalidTagData{ tag_id, position: tag_start }));
         };
 
@@ -528,7 +523,7 @@ impl<R: Read, TSpec> TagIterator<R, TSpec>
         }
     }
 
-    fn roll_up_children(tag_id: u64, children: Vec<TSpec>) -> TSpec {
+    pub(crate) fn roll_up_children(tag_id: u64, children: Vec<TSpec>) -> TSpec {
         let mut rolled_children = Vec::new();
 
         let mut iter = children.into_iter();
